@@ -12,6 +12,7 @@ import (
 )
 
 type ad struct {
+	held func(func(int) bool)
 	a, b  *listz.DList[int]
 	node  map[int]*listz.DNode[int]
 	id    map[*listz.DNode[int]]int
@@ -30,6 +31,7 @@ func (x *ad) Reset(s json.RawMessage) error {
 		x.a = listz.NewDoubly[int]()
 	}
 	x.b = new(listz.DList[int])
+	x.held = heldAll(x.a)
 	x.node = map[int]*listz.DNode[int]{}
 	x.id = map[*listz.DNode[int]]int{}
 	x.sa = list.New()
@@ -198,7 +200,7 @@ func (x *ad) Obs() interface{} {
 	for e := x.sa.Front(); e != nil; e = e.Next() {
 		std = append(std, e.Value.(int))
 	}
-	return map[string]interface{}{"len": x.a.Len(), "fwd": fwd, "bwd": bwd, "vals": vals, "other": other, "std": std, "out": x.outVec(in)}
+	return map[string]interface{}{"len": x.a.Len(), "fwd": fwd, "bwd": bwd, "vals": vals, "all": rangeAll(x.held, vals), "other": other, "std": std, "out": x.outVec(in)}
 }
 
 var nHandles = 3
